@@ -56,6 +56,27 @@ def obligations(tier):
     obs.append(Ob('O8.2-ago-later-N', 'sx', 'harness.apidt:h_ago_later', slices=[{'unit': u} for u in ('D', 'W')], timeout=t,
                   descr='get_date_result: R -/+ N days or 7N days for symbolic N', bounds='N 1..5000, every reference 1950..2090, both directions',
                   encodes=[B + 'utilities:AgoLaterUtil.get_date_result']))
+    two = [('3 days ago and 2 weeks ago', -3, -14), ('in 3 days or in 2 weeks', 3, 14), ('tomorrow and 5 days from now', 1, 5), ('yesterday or 2 days ago', -1, -2)]
+    if tier == 'thorough':
+        two += [('i left 3 weeks ago for 2 days', -21, None)][:0] + [('2 days ago, 3 days ago', -2, -3), ('in 2 weeks and in 30 days', 14, 30), ('5000 days ago or in 5000 days', -5000, 5000)]
+    obs.append(Ob('O8.8-two-expressions', 'sx', 'harness.apidt:h_relative_two', slices=[{'q': q, 'shift': a_, 'shift2': b_} for q, a_, b_ in two], timeout=t,
+                  descr='two relative day expressions in one query: two date entities in text order, each R\'s date + its own shift (the extractor collects the relative-duration tokens of ALL durations of the query)',
+                  bounds='every reference minute 1950..2090; one slice per query', encodes=ENC[:3] + [B + 'base_date:BaseDateExtractor.relative_duration_date']))
+    import json as _json
+    import os as _os
+    ph = _json.load(open(_os.path.join(_os.path.dirname(_os.path.dirname(_os.path.abspath(__file__))), 'harness', 'c08_phrases.json'), encoding='utf-8'))
+    pick = (lambda lst: lst[:4]) if tier == 'quick' else (lambda lst: lst)
+    obs.append(Ob('O8.7-relative-day-cultures', 'sx', 'harness.apidt:h_relative_day', slices=[{'q': q, 'shift': s, 'culture': c} for c in sorted(ph['day']) for q, s in pick(ph['day'][c])], timeout=t,
+                  descr='the relative day expressions of es, fr, pt, de, it, nl, zh that the port supports (hoy / demain / übermorgen / 3 dagen geleden / 大后天 ...): R\'s date + shift, TIMEX = that date, for EVERY reference',
+                  bounds='every reference minute 1950..2090; phrases of harness/c08_phrases.json (quick: 4 per culture)', encodes=ENC[:3]))
+    obs.append(Ob('O8.7-week-cultures', 'sx', 'harness.apidt:h_week', slices=[{'q': q, 'shift': s, 'culture': c} for c in sorted(ph['week']) for q, s in pick(ph['week'][c])], timeout=t,
+                  descr='this / next / last week in es, fr, pt, de, it, nl, zh (supported phrases): [Monday, next Monday) of the shifted ISO week, TIMEX ISO-year-Www, for EVERY reference',
+                  bounds='every reference minute 1950..2090', encodes=ENC[:3]))
+    obs.append(Ob('O8.7-month-cultures', 'sx', 'harness.apidt:h_month', both_policies=True, slices=[{'q': q, 'shift': s, 'late': 0, 'culture': c} for c in sorted(ph['month']) for q, s in pick(ph['month'][c])], timeout=t,
+                  descr='this / next / last month in the other cultures (supported phrases): [first day, first day of the next month), TIMEX YYYY-MM', bounds='reference year 1950..2090, any month, day 1..28', encodes=ENC[:3]))
+    obs.append(Ob('O8.7-year-cultures', 'sx', 'harness.apidt:h_year', both_policies=True, slices=[{'q': q, 'shift': s, 'culture': c} for c in sorted(ph['year']) for q, s in pick(ph['year'][c])], timeout=t,
+                  descr='this / next / last year in the other cultures (supported phrases): [Jan 1, next Jan 1), TIMEX YYYY', bounds='reference 1950..2090, day 1..28', encodes=ENC[:3]))
+    obs.append(Ob('O8.7-witness-no-timex', 'fn', 'harness.witness:api_witness', slices=[{'w': 'F61'}], timeout=t, finding='F61', descr='API witnesses of the repaired F61 (period phrase resolved as the current month without a TIMEX): a reappearance is a violation'))
     ZD = 'recognizers_date_time.date_time.chinese.date_parser:ChineseDateParser.'
     obs.append(Ob('O8.6-chinese-special-day', 'sx', 'harness.dateparse_zh:h_zh_special', slices=[{'word': w} for w in ('今天', '明天', '后天', '大后天', '昨天', '前天', '大前天', '明日', '昨日')], timeout=t,
                   descr='Chinese special days (今天 明天 后天 大后天 昨天 前天 大前天 ...) through the real ChineseDateParser.parse_implicit_date and get_swift_day: value = TIMEX = reference date + k days for every reference',
